@@ -105,6 +105,8 @@ class Events:
                         self.events.append(Ev('L.count', nid, (args[0],), f, dict(owner=obj)))
                     elif name in MAP_READ:
                         pass
+                    elif name == 'insert_or_assign' and len(args) == 2:
+                        self.events.append(Ev('L.set', nid, (args[0], args[1]), f, dict(owner=obj)))
                     else:
                         self.events.append(Ev('L.unknown', nid, (), f, dict(method=name)))
                         self.unknown.append((nid, 'std::unordered_map::%s on the label store' % name))
